@@ -87,6 +87,20 @@ fn main() {
             }
             std::process::exit(runner::selftest(&scens, n, seed, workers, args.iter().any(|a| a == "--print")));
         }
+        Some("log") => {
+            // sim log <scenario> <seed> [--tier thorough]: print the full event log of one run
+            let name = args.get(1).cloned().unwrap_or_else(|| usage());
+            let seed: u64 = args.get(2).and_then(|s| s.parse().ok()).unwrap_or_else(|| usage());
+            let scen = scen::all().into_iter().find(|s| s.name == name).unwrap_or_else(|| usage());
+            runner::install_panic_hook();
+            let mut input = anemo_sim::world::RunInput::new(seed, if arg(&args, "--tier").as_deref() == Some("thorough") { Tier::Thorough } else { Tier::Quick });
+            input.record_log = true;
+            let out = runner::execute(scen, input);
+            for l in &out.log {
+                println!("{l}");
+            }
+            println!("# hash {:016x} sig {:016x} violation {:?}", out.log_hash, out.sig, out.violation.map(|v| v.class));
+        }
         Some("list") => {
             for s in scen::all() {
                 println!("{} {} quick={} thorough={}", s.id, s.name, s.quick_runs, s.thorough_runs);
